@@ -10,6 +10,11 @@ import numpy as np
 from .common import quiet_fd
 
 _CLASSES = None
+REAL_FUEL = 80  # far above the proved bound for the option sets used here
+
+
+class RealDiverged(Exception):
+    pass
 
 
 def make_classes():
@@ -152,6 +157,8 @@ def make_classes():
             if not hasattr(self, "tap_log"):
                 self.tap_log, self.tap_res, self.tap_seed = [], [], []
             th = float(self.parameters(0)[self._hname])
+            if len(self.tap_log) >= REAL_FUEL:
+                raise RealDiverged()
             self._await_seed = True
             ok = super().optimize(preprocessing=preprocessing, postprocessing=postprocessing,
                                   log_solver_failure_as_error=log_solver_failure_as_error)
@@ -207,6 +214,8 @@ def run_real(cls, kw):
     try:
         with quiet_fd():
             ret = p.optimize()
+    except RealDiverged:
+        return dict(kind="diverged", log=[(th, ok, None) for th, ok, _ in p.tap_log], ret=None, p=p)
     except Exception as e:
         return dict(kind="raise", err=type(e).__name__ + ": " + str(e)[:200], log=[], ret=None, p=p)
     log, acc = [], None
@@ -275,6 +284,10 @@ def stream_real(c, n, oracle, compare, model_line):
         c.count((stream, full_opts(opts), tuple(e[1] for e in r["log"]), r["ret"], kw["members"], len(kw["times"])))
         c.hit("real/programs")
         c.hit("%s/%s" % (stream, "raise" if r["kind"] != "ok" else ("success" if r["ret"] else "failure")))
+        if r["kind"] == "diverged":
+            c.fail("homotopy loop on a real problem did not end within %d solves" % REAL_FUEL, case,
+                   {"thetas": [e[0] for e in r["log"]][:12]})
+            continue
         if r["kind"] != "ok":
             c.fail("homotopy run on a real problem raised " + r.get("err", ""), case)
             continue
